@@ -1407,11 +1407,18 @@ fn describe_desc(d: &SpendableOutputDescriptor) -> String {
 /// Run one case end to end.
 pub fn run_case(case: &Case, ctx: &mut Ctx, tail_blocks: u32) -> CaseResult {
 	let mut r = Run::new(case);
-	let res = run_inner(&mut r, ctx, tail_blocks);
-	if ctx.replay && res.is_err() {
-		println!("==== history ====\n{}", crate::oracle_commit::dump_history(&r.sim));
+	if ctx.replay {
+		// keep the history printable when LDK panics
+		let res = std::panic::catch_unwind(std::panic::AssertUnwindSafe(|| run_inner(&mut r, ctx, tail_blocks)));
+		if !matches!(res, Ok(Ok(()))) {
+			println!("==== history ====\n{}", crate::oracle_commit::dump_history(&r.sim));
+		}
+		return match res {
+			Ok(x) => x,
+			Err(p) => std::panic::resume_unwind(p),
+		};
 	}
-	res
+	run_inner(&mut r, ctx, tail_blocks)
 }
 
 fn run_inner(r: &mut Run, ctx: &mut Ctx, tail_blocks: u32) -> CaseResult {
